@@ -42,7 +42,7 @@ Proof.
 Qed.
 
 (* repaired semantics (one snapshot per read transaction): the answer is the answer as of the
-   block boundary at which the query made its first read, whatever is committed afterwards *)
+   block boundary at which the query's read transaction began, whatever is committed afterwards *)
 Lemma single_boundary_snapshot ord ss sc q :
   answer ord true ss sc q = answer_at ord ss (idx sc 0) q /\
   nreads ord true ss sc q = fst (run_query ord (fun _ => store_at ss (idx sc 0)) q).
@@ -149,7 +149,7 @@ Definition w1_node : node :=
 Definition w1_st : wstate := process_or_keep w_params true w_own w1_node (init_state 100) (w_blk 101 100 1 [w_cb 1 []]).
 Definition w1_ss : list wstate :=
   stores_of w_params w_own w1_node w1_st [w_blk 102 101 2 [w_cb 2 []]; w_blk 103 102 3 [w_cb 3 [w_pay 420000000]]].
-Definition w1_sc : list nat := [0; 2]%nat.
+Definition w1_sc : list nat := [0; 0; 2]%nat.
 
 Lemma refuted_wrap :
   monotone w1_sc = true /\ length w1_ss = 3%nat /\
@@ -179,7 +179,7 @@ Definition w2_b7 : block := w_blk 107 106 7 [w_cb 7 []; w2_spend].
 Definition w2_node : node := w_blk 100 0 0 [] :: w2_chain ++ [w2_b7].
 Definition w2_st : wstate := fold_left (process_or_keep w_params true w_own w2_node) w2_chain (init_state 100).
 Definition w2_ss : list wstate := stores_of w_params w_own w2_node w2_st [w2_b7].
-Definition w2_sc : list nat := [0; 1]%nat.
+Definition w2_sc : list nat := [0; 0; 1]%nat.
 
 Lemma refuted_stale :
   monotone w2_sc = true /\ length w2_ss = 2%nat /\
@@ -206,8 +206,12 @@ Qed.
 (* the witness stores satisfy the hypothesis of spendable_mature_at_boundary (non-vacuity) *)
 Lemma w1_heights_ok : forall j, (j < 3)%nat -> heights_ok (store_at w1_ss j).
 Proof.
-  intros j Hj. destruct j as [|[|[|j]]]; try lia; unfold heights_ok; vm_compute.
-  - split; [split; [discriminate|reflexivity]|]. intros c [].
-  - split; [split; [discriminate|reflexivity]|]. intros c [].
-  - split; [split; [discriminate|reflexivity]|]. intros c [<-|[]]. repeat split; discriminate.
+  intros j Hj. destruct j as [|[|[|j]]]; try lia; unfold heights_ok.
+  all: match goal with
+       | |- context [store_at w1_ss ?k] =>
+           let v := eval vm_compute in (store_at w1_ss k) in change (store_at w1_ss k) with v
+       end; cbn [tip synced hd fst credits]; unfold two32.
+  - split; [lia|]. intros c [].
+  - split; [lia|]. intros c [].
+  - split; [lia|]. intros c [<-|[]]. cbn [c_height c_maturity]. lia.
 Qed.
